@@ -44,6 +44,7 @@ Inductive xobs :=
 
 Inductive kop :=
 | KAddEnd (i : nat) (e : endmol float) (k : nat)
+| KRemoveEnd (i : nat) (k : nat)
 | KCalc (s : float) (draws : list (V3 float)) (k : nat)
 | KExtrap (mols : list (minst (ibody float))) (draws : list (V3 float)) (o : xobs).
 
@@ -229,6 +230,11 @@ Fixpoint krun (starts : list kstart) (title : bytes) (box : list bentry) (sps : 
   | [] => AGREE
   | KAddEnd i e k :: rest =>
       match add_end k_eeq sps i e with
+      | Ok sps' => if Nat.eqb k 0 then krun starts title box sps' rest else ERRMISMATCH
+      | Err er => if res_match (Err er) k then krun starts title box sps rest else ERRMISMATCH
+      end
+  | KRemoveEnd i k :: rest =>
+      match remove_end sps i with
       | Ok sps' => if Nat.eqb k 0 then krun starts title box sps' rest else ERRMISMATCH
       | Err er => if res_match (Err er) k then krun starts title box sps rest else ERRMISMATCH
       end
